@@ -121,6 +121,7 @@ func (c *Ctx) Name(prefix string, t *Term) *Term {
 	}
 	v := c.Fresh(prefix, t.S)
 	c.defs = append(c.defs, App("=", SBool, v, t))
+	nameDefs[v.Op] = t
 	return v
 }
 
@@ -161,6 +162,7 @@ func (o *Obligation) SMT(withModel bool) string {
 		}
 		sb.WriteString("))))\n")
 	}
+	shlPos := sb.Len()
 	// relevance: include everything (queries are small); declarations in order.
 	for _, d := range c.decls {
 		if d.body != nil {
@@ -208,9 +210,20 @@ func (o *Obligation) SMT(withModel bool) string {
 	for _, mv := range o.ModelVars {
 		freeSyms(mv.T, reach)
 	}
+	for _, a := range c.axioms {
+		freeSyms(a.t, reach)
+	}
 	included := make([]bool, len(c.defs))
+	expanded := map[string]bool{}
 	for changed := true; changed; {
 		changed = false
+		for _, d := range c.decls {
+			if d.body != nil && reach[d.name] && !expanded[d.name] {
+				expanded[d.name] = true
+				freeSyms(d.body, reach)
+				changed = true
+			}
+		}
 		for i, d := range c.defs {
 			if included[i] {
 				continue
@@ -252,6 +265,12 @@ func (o *Obligation) SMT(withModel bool) string {
 	fmt.Fprintf(&sb, "(assert %s) ; guard\n", o.Guard)
 	if !o.Cover {
 		fmt.Fprintf(&sb, "(assert (not %s)) ; goal %s\n", o.Goal, o.Name)
+	}
+	if out := sb.String(); strings.Contains(out[shlPos:], "(shl ") {
+		pre := "(declare-fun shl ((Array Int Int) Int) (Array Int Int))\n" +
+			"(assert (forall ((a (Array Int Int)) (o Int) (k Int)) (! (= (select (shl a o) k) (select a (+ o k))) :pattern ((select (shl a o) k)))))\n"
+		sb.Reset()
+		sb.WriteString(out[:shlPos] + pre + out[shlPos:])
 	}
 	sb.WriteString("(check-sat)\n")
 	if withModel {
